@@ -336,6 +336,29 @@ class Corr:
 
 
 
+
+# the exception classes the models and the property statements speak about: the library's own (dali/exceptions.py at
+# the pinned commit) and the builtins the code raises.  An exception is judged as the FIRST of these along its MRO:
+# a maintainer may raise a more specific subclass of the documented class (with a better message) - for every
+# `except` clause and `isinstance` test of a caller that is still the documented class.
+EXC_VOCAB = frozenset("""DALIError AddressError IncompatibleFrame CommandError MissingResponse ResponseError
+DALISequenceError ProgramShortAddressFailure MemoryError LatchingNotSupported MemoryLocationNotImplemented
+MemoryWriteError MemoryValueNotWriteable MemoryLocationNotWriteable MemoryWriteFailure DriverError CommunicationError
+UnsupportedFrameTypeError TypeError ValueError IndexError KeyError AttributeError OverflowError AssertionError
+RuntimeError NotImplementedError OSError TimeoutError ZeroDivisionError StopIteration RecursionError NameError
+CancelledError QueueFull QueueEmpty InvalidStateError GeneratorExit KeyboardInterrupt SystemExit SeqBoom Spin
+InfraError Captured""".split())
+
+
+def exc_name(e):
+    """canonical class name of an exception (object or class) raised by the code under test"""
+    cls = e if isinstance(e, type) else type(e)
+    for k in cls.__mro__:
+        if k.__name__ in EXC_VOCAB:
+            return k.__name__
+    return cls.__name__
+
+
 class Spin(BaseException):
     """raised INSIDE code that has been running for too long without returning to the harness (a synchronous
     busy loop in the code under test: e.g. a retry loop that never awaits).  BaseException, so that the library's
